@@ -14,7 +14,8 @@ RULE = ('Hypothesis-generated histories of 1..12 steps against ONE worker proces
         'API shape) with documents from a pool chosen for statefulness (e-mail autolinks, notes/citations/glossary/abbreviations, headings '
         '+ cross-references, tables, images, metadata, CriticMarkup, a multi-slab document, OPML source) plus G-doc and corpus documents; '
         'API shapes: string / DString / to_data variants, a reused engine converting several formats with metadata queries in between, '
-        'and in-place source replacement through mmd_engine_d_string(); random-anchor steps are executed as history but not compared; '
+        'in-place source replacement through mmd_engine_d_string(), and exporting the already parsed tree of a reused engine again through '
+        'mmd_engine_export_token_tree() without re-parsing (one parse, many writers); random-anchor steps are executed as history but not compared; '
         'pool bracket per step or around the whole history. Oracle: every compared step equals the same call made FIRST in a fresh '
         '(non-sanitised) process; the caller\'s buffer is unchanged (or holds the converted text for OPML sources). Packages are compared '
         'member by member under a UUID/date mask. Non-trivial: history of length>=2 where a compared step follows a step with a stateful '
@@ -62,7 +63,7 @@ def corpus():
 docref = st.one_of(st.integers(0, len(STATEFUL) - 1).map(lambda i: ['s', i]), st.integers(0, len(STATEFUL) - 1).map(lambda i: ['s', i]),
                    st.integers(0, 200).map(lambda i: ['c', i]), gdoc.document(CFG).map(lambda d: ['g', d]), st.just(['m', 0]), st.just(['o', 0]))
 step = st.fixed_dictionaries({'doc': docref, 'fmt': st.sampled_from(FMTS), 'ext': st.sampled_from(EXTS), 'lang': st.integers(0, 6),
-                              'api': st.sampled_from(['s', 'd', 'sd', 'dd', 'e', 'ed', 'E', 'E', 'Esrc', 'Emeta'])})
+                              'api': st.sampled_from(['s', 'd', 'sd', 'dd', 'e', 'ed', 'E', 'E', 'Esrc', 'Emeta', 'Eexp', 'Eexp'])})
 
 
 def strategy(tier):
@@ -159,7 +160,20 @@ def check(case, ctx):
                     w.call('ehas', engine[0])
                     w.call('ekeys', engine[0])
                     w.call('evalue', engine[0], 'title')
-                rr = w.call('econv', engine[0], 'ed' if pkg.is_package_fmt(fmt) or fmt in ('fodt', 'mmd') else 'e', FMT[fmt], FIX)
+                exported = api == 'Eexp' and fmt in ('html', 'latex', 'beamer', 'memoir', 'opml') and s['doc'][0] != 'o'
+                if exported:
+                    # one parse, many exports: the tree that an earlier export of this engine has walked is exported again without re-parsing
+                    # (a changed source was written with esrc above: the worker parses when the engine has no tree, so force a parse by a
+                    # conversion first when the text changed)
+                    if engine[4:] != [text]:
+                        w.call('econv', engine[0], 'e', FMT['html'], FIX)
+                        engine[4:] = [text]
+                    rr = w.call('eexport', engine[0], FMT[fmt])
+                    rr = [rr[0], rr[1] + b'\n', text.encode('utf-8', 'surrogateescape')]      # mmd_engine_convert = parse + this export + one newline
+                    ctx.cls('export_without_reparse')
+                else:
+                    rr = w.call('econv', engine[0], 'ed' if pkg.is_package_fmt(fmt) or fmt in ('fodt', 'mmd') else 'e', FMT[fmt], FIX)
+                    engine[4:] = [text]
                 status, out = rr[0].decode(), rr[1]
                 after = rr[2]
                 if s['doc'][0] != 'o' and after.decode('utf-8', 'surrogateescape') != text:
@@ -172,6 +186,8 @@ def check(case, ctx):
             if compare:
                 # e / s / d return the body; ed/sd/dd the data form -- the reference is made with the same shape
                 shape = 'data' if (api in ('sd', 'dd', 'ed') or (api.startswith('E') and (pkg.is_package_fmt(fmt) or fmt in ('fodt', 'mmd')))) else 'str'
+                if api == 'Eexp' and exported:
+                    shape = 'str'
                 rs, rout = reference_shape(ctx, text, fmt, ext, lang, shape)
                 if status != rs or not same(fmt, out, rout):
                     raise Violation('history:differs-from-fresh-process',
